@@ -110,7 +110,8 @@ Definition show_attr (prefix:str) (name:str) (v:aval) (level:Z) (width:Z) : res 
     | AStr value =>
         let indent := prefix ++ spaces (3 + length name + 3) in
         let fits := fun (t:str) => (zlen indent + zlen t <? width)%Z in
-        let value' := if negb (is_ident value) || negb (fits value) then quote_str Q2 value else value in
+        let value' := if negb (is_ident value) || eqs (lowers value) (s_ "none") || eqs (lowers value) (s_ "auto")
+                                  || negb (fits value) then quote_str Q2 value else value in
         if fits value' then Ok (line (head ++ value'))
         else
           let inner := removelast (drop 1 value') in
